@@ -52,7 +52,9 @@ enum Step {
 
 /// Execute one schedule.
 pub fn run_schedule(values: &[Val], ch: &Choices, b: Bounds, max_len: usize) -> Result<Stats, String> {
-    let mut w = AsyncWriter::new(Sink::new(ch.clone(), b));
+    // the writer reuses a caller-supplied buffer with stale content (`new` is `with_buffer` of an
+    // empty one; the junk length varies with the values, 0 included)
+    let mut w = AsyncWriter::with_buffer(Sink::new(ch.clone(), b), crate::c14::junk_buffer(values.len() * 5 + max_len));
     w.set_max_len(max_len as u32);
     let mut want: Vec<u8> = Vec::new(); // all frames committed so far
     let mut done_bytes = 0usize; // bytes of frames completed before the current one
